@@ -40,8 +40,57 @@ DECODERS = ["prost::message::Message::decode", "prost::message::Message::decode_
             "cid::cid::Cid::<S>::read_bytes", "prost::encoding::length_delimiter::decode_length_delimiter", "integer_encoding::varint::VarInt::decode_var"]
 
 
+NP = T + "nmt::namespace_proof::NamespaceProof::"
+NMT_VERIFY = ["nmt_rs::nmt_proof::NamespaceProof::<M, NS_ID_SIZE>::verify_range", "nmt_rs::nmt_proof::NamespaceProof::<M, NS_ID_SIZE>::verify_complete_namespace"]
+
+
+def nmt_shape_rules(ctx):
+    """nmt-rs panics on proofs that do not have the shape of a range proof (found by the thorough
+    dependency cone: hash_nodes ordering panic, sibling indexing by popcount(start)). lumina therefore
+    validates the shape first; these rules keep that validation in front of every nmt-rs verification."""
+    from engine.rules import Cmp, Has, call_sites_with, per_iteration, require_guard
+
+    sites = all_call_sites(ctx, ["celestia_types", "lumina_node", "celestia_grpc"], NMT_VERIFY)
+    ctx.floor("C16.nmt.sites", "call sites of nmt-rs proof verification", len(sites), 2)
+    wrappers = {NP + "verify_range", NP + "verify_complete_namespace"}
+    for b, blk in sites:
+        ctx.check(root_fn(b.path) in wrappers, "C16.nmt.wrapped", b.path, "nmt-rs proof verification is called only from the validating NamespaceProof wrappers", site=b.loc(blk), key="C16.nmt.wrapped|" + root_fn(b.path))
+        if root_fn(b.path) in wrappers:
+            ctx.functions.add(b.path)
+            require_guard(ctx, b, Has("call:" + NP + "validate_structure", "a1", name="?self.validate_structure(..) before delegating to nmt-rs"), "C16.nmt.validated", targets=[blk])
+    v = ctx.anchor(NP + "validate_structure")
+    if v:
+        require_guard(ctx, v, Cmp(["len:a1", "call:*::siblings"], ["call:*::count_ones", "call:*::start_idx"], pass_op="Ge", name="siblings.len() >= popcount(start_idx)"), "C16.nmt.sibling-count")
+        # the ordering loop: every element is rejected unless min <= max and previous max <= min
+        fam = [v] + [ctx.fn(p) for p in ctx.facts.family(v.path)[1:]]
+        loops = [b for b in v.call_sites(["*Iterator*::next"])]
+        ctx.check(bool(loops), "C16.nmt.order-loop", v.path, "loop over [left siblings, leaves, right siblings]", key="C16.nmt.order-loop")
+        lv = set()
+        for b in range(v.n):
+            if v.blocks[b]["t"]["k"] == "switch":
+                lv |= ctx.leaves(v.switch_discr_expr(b))
+        cmp_calls = [b for b in sorted(v.reachable_from([0])) if v.blocks[b]["t"]["k"] == "call" and std_tail_of(v.blocks[b]["t"]) in ("PartialOrd::gt", "PartialOrd::lt", "PartialOrd::le", "PartialOrd::ge")]
+        inner_cmp = 0
+        for cb in fam[1:]:
+            inner_cmp += len([b for b in range(cb.n) if cb.blocks[b]["t"]["k"] == "call" and std_tail_of(cb.blocks[b]["t"]) in ("PartialOrd::gt", "PartialOrd::lt", "PartialOrd::le", "PartialOrd::ge")])
+        ctx.check(len(cmp_calls) + inner_cmp >= 2, "C16.nmt.order-cmp", v.path, "two namespace order comparisons per element (min <= max, previous max <= min): %d" % (len(cmp_calls) + inner_cmp), key="C16.nmt.order-cmp")
+        rej = [x for x in exit_sites_of(v) if x["kind"] == "reject"]
+        ctx.check(len(rej) >= 3, "C16.nmt.rejects", v.path, "validate_structure has a rejecting exit for each violated condition: %d" % len(rej), key="C16.nmt.rejects")
+
+
+def std_tail_of(t):
+    from engine.mir import std_tail
+    return std_tail(t["f"]) if "f" in t else None
+
+
+def exit_sites_of(b):
+    from engine.rules import exit_sites
+    return exit_sites(b)
+
+
 def run(ctx):
     cone, sites = run_cone(ctx, "C16", ROOTS, 250, stop=STOP)
+    nmt_shape_rules(ctx)
     # root completeness: every wire decoder call in lumina_node::p2p lies in the cone
     calls = all_call_sites(ctx, ["lumina_node"], DECODERS, path_filter=lambda p: p.startswith((N + "p2p", "<")) and "lumina_node::p2p" in p)
     ctx.floor("C16.decoder-calls", "wire decoder call sites in lumina_node::p2p", len(calls), 8)
